@@ -109,6 +109,42 @@ def textureWf (texHeader : Bytes) (mips : List (List Block)) : Bool :=
   (match mips with | (_ :: _) :: _ => true | _ => false) &&
   decide (textureHeaderLen mips + 128 + texHeader.length + (encodeBlocks mips.flatten).length < 2147483648)
 
+/-! ### texture entries whose mip chains do not sit back to back
+
+Every LOD record carries the offset of its first block, so the format allows filler between the
+block chains of two LODs (the chain of LOD 0 starts right behind the texture header: the reader
+takes the texture header's length from that offset).  `gaps[i]` are the bytes in front of the
+chain of LOD `i + 1`. -/
+
+def lodTableG : Nat → Nat → List (Bytes × List Block) → Bytes
+  | _, _, [] => []
+  | off, idx, (g, m) :: ms =>
+    putU32le (off + g.length).toUInt32 ++ putU32le (encodeBlocks m).length.toUInt32 ++
+      putU32le (contents m).length.toUInt32 ++ putU32le idx.toUInt32 ++ putU32le m.length.toUInt32 ++
+      lodTableG (off + g.length + (encodeBlocks m).length) (idx + m.length) ms
+
+def gappedBody : List (Bytes × List Block) → Bytes
+  | [] => []
+  | (g, m) :: ms => g ++ encodeBlocks m ++ gappedBody ms
+
+/-- `mips` paired with the filler in front of each chain (empty in front of the first) -/
+def withGaps (mips : List (List Block)) (gaps : List Bytes) : List (Bytes × List Block) :=
+  match mips with
+  | [] => []
+  | m :: ms => ([], m) :: (ms.zipIdx.map fun (x, i) => (gaps.getD i [], x))
+
+def packTextureG (texHeader : Bytes) (mips : List (List Block)) (gaps : List Bytes) : Bytes :=
+  let hl := textureHeaderLen mips
+  align128 (putU32le (hl + pad128 hl).toUInt32 ++ putU32le 4 ++
+    putU32le (texHeader.length + (contents mips.flatten).length).toUInt32 ++
+    putU32le 0 ++ putU32le 0 ++ putU32le mips.length.toUInt32 ++
+    lodTableG texHeader.length 0 (withGaps mips gaps) ++ sizeTable mips.flatten)
+  ++ texHeader ++ gappedBody (withGaps mips gaps)
+
+def textureGWf (texHeader : Bytes) (mips : List (List Block)) (gaps : List Bytes) : Bool :=
+  textureWf texHeader mips &&
+  decide (textureHeaderLen mips + 128 + texHeader.length + (gappedBody (withGaps mips gaps)).length < 2147483648)
+
 /-! ### model entries -/
 
 /-- the eleven block runs of a model entry, in file order: stack, runtime, then per LOD the vertex,
